@@ -1,25 +1,68 @@
-use ropey::Rope;
-
 use syntax::parser::TextSize;
 
+/// Maps byte offsets to lines and UTF-16 columns.
+/// Lines end at `\n`, `\r\n` or a lone `\r`.
 #[derive(Debug, Eq, PartialEq)]
 pub struct LineIndex {
-    rope: Rope,
+    text: String,
+    line_starts: Vec<TextSize>,
 }
 
 impl LineIndex {
     pub fn new(text: &str) -> Self {
+        let bytes = text.as_bytes();
+        let mut line_starts = vec![TextSize::from(0)];
+        for (i, &b) in bytes.iter().enumerate() {
+            if b == b'\n' || (b == b'\r' && bytes.get(i + 1) != Some(&b'\n')) {
+                line_starts.push(TextSize::try_from(i + 1).expect("text is too large"));
+            }
+        }
         Self {
-            rope: Rope::from_str(text),
+            text: text.to_string(),
+            line_starts,
         }
     }
 
     pub fn pos_to_line(&self, pos: TextSize) -> usize {
-        self.rope.char_to_line(pos.into())
+        self.line_starts.partition_point(|&start| start <= pos) - 1
     }
 
+    /// Start of `line`; lines past the end map to the end of the text.
     pub fn line_to_pos(&self, line: usize) -> TextSize {
-        let pos = self.rope.line_to_char(line);
-        TextSize::try_from(pos).expect("line index out of bounds")
+        match self.line_starts.get(line) {
+            Some(&start) => start,
+            None => TextSize::of(self.text.as_str()),
+        }
+    }
+
+    /// UTF-16 column of `pos` within its line.
+    pub fn utf16_col(&self, pos: TextSize) -> u32 {
+        let start = usize::from(self.line_to_pos(self.pos_to_line(pos)));
+        let mut end = usize::from(pos).min(self.text.len());
+        while !self.text.is_char_boundary(end) {
+            end -= 1;
+        }
+        self.text[start..end.max(start)]
+            .chars()
+            .map(|c| c.len_utf16() as u32)
+            .sum()
+    }
+
+    /// Offset of UTF-16 column `col` of `line`; a column past the end of the line means the line end.
+    pub fn offset_at(&self, line: usize, col: u32) -> TextSize {
+        let Some(&start) = self.line_starts.get(line) else {
+            return TextSize::of(self.text.as_str());
+        };
+        let mut offset = usize::from(start);
+        let mut rest = col;
+        for c in self.text[offset..].chars() {
+            let width = c.len_utf16() as u32;
+            if c == '\n' || c == '\r' || width > rest {
+                break;
+            }
+            rest -= width;
+            offset += c.len_utf8();
+        }
+        TextSize::try_from(offset).expect("text is too large")
     }
 }
